@@ -5,7 +5,6 @@ package c17
 import (
 	"errors"
 	"fmt"
-	"math"
 	"os"
 	"regexp"
 	"strconv"
@@ -148,9 +147,26 @@ func (Prop) Generate(r *fw.Rand, tier string) []fw.Case {
 	for i := 0; i < n; i++ {
 		cases = append(cases, genCase(r.Fork()))
 	}
-	// the local deletion itself, on a real store
+	// the local deletion itself, on a real store: series shared with the unexpired shard and
+	// series only the expired shard holds
 	for i := 0; i < 4+n/100; i++ {
-		cases = append(cases, fw.Case{Ops: []string{"reset 1", fmt.Sprintf("localdel %s %s %d", []string{"inmem", "tsi1"}[i%2], []string{"disabled", "plain"}[(i/2)%2], r.Intn(1<<20))}, Tags: []string{"local-delete"}})
+		all := []string{"m0|-", "m0|host=a", "m0|host=b", "m0|host=a,region=x", "m1|-", "m1|host=a", "m1|host=b", "m2|host=a", "m2|region=x"}
+		var shared, only1 []string
+		for _, sr := range all {
+			switch r.Intn(3) {
+			case 0:
+				shared = append(shared, sr)
+			case 1:
+				only1 = append(only1, sr)
+			}
+		}
+		join := func(l []string) string {
+			if len(l) == 0 {
+				return "-"
+			}
+			return strings.Join(l, ";")
+		}
+		cases = append(cases, fw.Case{Ops: []string{"reset 1", fmt.Sprintf("localdel %s %s %s %s", []string{"inmem", "tsi1"}[i%2], []string{"disabled", "plain"}[(i/2)%2], join(shared), join(only1))}, Tags: []string{"local-delete"}})
 	}
 	return cases
 }
@@ -292,9 +308,9 @@ func runPass(m *metah.M, f []string) (*env, string) {
 }
 
 // localDelete: the deletion of an expired shard on a real store (tsdb.Store.DeleteShard is what
-// the retention service calls): the database has a second, unexpired shard holding the same
-// series; see shardh.RetentionDelete.
-func localDelete(index, mode, seed string) (out string) {
+// the retention service calls): the database has a second, unexpired shard; see
+// shardh.RetentionDelete.
+func localDelete(index, mode, shared, only1 string) (out string) {
 	defer func() {
 		if r := recover(); r != nil {
 			out = "panic:" + strings.ReplaceAll(fmt.Sprint(r), " ", "_")
@@ -310,24 +326,7 @@ func localDelete(index, mode, seed string) (out string) {
 		return "err:" + strings.ReplaceAll(err.Error(), " ", "_")
 	}
 	defer h.Close()
-	sd, _ := strconv.Atoi(seed)
-	r := fw.NewRand(uint64(sd))
-	var pts []string
-	for i, n := 0, 2+r.Intn(6); i < n; i++ {
-		pts = append(pts, fmt.Sprintf("%s|%s|%d|v=f%016x", []string{"m0", "m1", "m2"}[r.Intn(3)], []string{"-", "host=a", "host=b", "host=a,region=x"}[r.Intn(4)],
-			1600000000000000000+int64(r.Intn(40))*1000, math.Float64bits(float64(r.Intn(100)))))
-	}
-	if w := h.Write(strings.Join(pts, ";")); w != "ok" {
-		return "err:write:" + w
-	}
-	if r.Intn(2) == 0 {
-		h.Snapshot()
-	}
-	o := h.RetentionDelete(mode)
-	if strings.HasPrefix(o, "kept ") {
-		return "kept"
-	}
-	return o
+	return h.RetentionDelete(mode, shared, only1)
 }
 
 func (Prop) RunImpl(c fw.Case) []string {
@@ -338,7 +337,11 @@ func (Prop) RunImpl(c fw.Case) []string {
 		if f[0] == "pass" {
 			_, out[i] = runPass(m, f)
 		} else if f[0] == "localdel" {
-			out[i] = localDelete(f[1], f[2], f[3])
+			if len(f) != 5 {
+				out[i] = "bad-op"
+				continue
+			}
+			out[i] = localDelete(f[1], f[2], f[3], f[4])
 		} else if f[0] == "map" {
 			out[i] = c08.StepOp(m, op)
 		} else {
@@ -354,7 +357,7 @@ func (Prop) Oracle(c fw.Case, implOut []string) fw.Verdict {
 	for i, op := range c.Ops {
 		f := strings.Fields(op)
 		if f[0] == "localdel" {
-			if i < len(implOut) && implOut[i] != "kept" {
+			if i < len(implOut) && !strings.HasPrefix(implOut[i], "kept ") {
 				o := implOut[i]
 				return fw.Verdict{OK: false, Why: op + " => " + o, Signature: "local deletion of an expired shard: " + strings.Fields(o)[0]}
 			}
